@@ -843,7 +843,7 @@ def _c09_15(ctx):
         return "1" * (len(raw) - len(raw.lstrip(b"\x00"))) + out
     payloads = []
     quick = getattr(ctx, "tier", "quick") != "thorough"
-    for length in ([0, 1, 2, 3, 4, 5, 8, 9, 12, 13, 16, 20, 21, 24, 25, 33, 34, 37, 78] if quick else list(range(0, 40)) + [64, 74, 78, 82]):
+    for length in ([0, 1, 2, 3, 4, 5, 8, 9, 12, 13, 16, 20, 21, 24, 25, 33, 34, 37, 78, 79, 82] if quick else list(range(0, 40)) + [64, 74, 78, 82]):
         for zeros in range(0, min(4, length + 1)):
             rest = length - zeros
             shapes = {b"\x01" + bytes(rest - 1), b"\x80" + bytes(rest - 1), b"\xff" * rest, b"\x01" + b"\xa5" * (rest - 1), bytes((91 * i + 7) & 255 or 1 for i in range(rest))} if rest else {b""}
@@ -878,7 +878,7 @@ def _c09_15(ctx):
         return [ctx.err(spec_d, "Base58Check codec not evaluable: %s" % u, fn, mod)]
     ctx.count("cells", len(payloads))
     return [ctx.bad(spec_d, bad_d, fn, mod, key="base58-cells:decode") if bad_d else
-            ctx.ok(spec_d, "%d directed payloads (%s × leading zeros × width-boundary shapes) decode to themselves" % (len(payloads), "19 lengths between 0 and 78" if quick else "lengths 0..39, 64, 74, 78, 82"), fn, mod, key="base58-cells:decode"),
+            ctx.ok(spec_d, "%d directed payloads (%s × leading zeros × width-boundary shapes) decode to themselves" % (len(payloads), "21 lengths between 0 and 82" if quick else "lengths 0..39, 64, 74, 78, 82"), fn, mod, key="base58-cells:decode"),
             ctx.bad(spec_e, bad_e, fn_e, mod_e, key="base58-cells:encode") if bad_e else
             ctx.ok(spec_e, "the encoder equals the rule's own Base58Check on every directed payload", fn_e, mod_e, key="base58-cells:encode")]
 
